@@ -56,8 +56,11 @@ def _results(T, tag, kinds, flip):
         if flip:
             # the user-domain image has an unrelated objective (e.g. sign-flipped): it must play no role in the comparison
             uobj = T.real("%s_user_objective%d" % (tag, i), (), nan="sym")
+            # ... and so has its violation (a scaled one, e.g.): the tolerance applies to the violation in the domain the optimizer works in
+            uviol = T.real("%s_user_violation%d" % (tag, i), (1,), lo=0.0)
             u = FunctionResults(batch_id=None, metadata={}, evaluations=None, realizations=None,
-                                functions=None if k == "F0" else types.SimpleNamespace(weighted_objective=uobj), constraint_info=None)
+                                functions=None if k == "F0" else types.SimpleNamespace(weighted_objective=uobj),
+                                constraint_info=types.SimpleNamespace(bound_violation=uviol, linear_violation=None, nonlinear_violation=None))
         else:
             u = o
         user.append(u)
@@ -77,7 +80,7 @@ def cases_step(tier):
                 for tol in ("none", "zero", "sym"):
                     for flip in (False, True):
                         for inc in (False, True):
-                            if tier == "quick" and what == "last" and (flip or tol == "zero"):
+                            if tier == "quick" and what == "last" and ((flip and tol != "sym") or tol == "zero"):
                                 continue
                             yield "%s/%s/tol=%s/%s/%s" % (what, "".join(k if k != "F0" else "f" for k in kinds), tol, "transformed" if flip else "plain", "incumbent" if inc else "empty"), {
                                 "what": what, "kinds": list(kinds), "tol": tol, "flip": flip, "incumbent": inc}
@@ -119,13 +122,22 @@ def scn_step(T, case):
     m = None
     inc_user = inc_opt = None
     if case["incumbent"]:
+        # the pre-state is reached the way every state is reached: by an earlier event that delivered a feasible function result with
+        # (optimizer-domain) objective m - whatever the tracker keeps of it, and where, is its own business
         m = T.real("incumbent_objective", ())
         inc_opt = FunctionResults(batch_id=None, metadata={}, evaluations=None, realizations=None, functions=types.SimpleNamespace(weighted_objective=m))
-        inc_user = FunctionResults(batch_id=None, metadata={}, evaluations=None, realizations=None,
-                                   functions=types.SimpleNamespace(weighted_objective=T.real("incumbent_user_objective", ())))
-        trk["results"] = inc_user
-        if hasattr(trk, "_transformed_results"):
-            trk._transformed_results = inc_opt
+        if case["flip"]:
+            inc_user = FunctionResults(batch_id=None, metadata={}, evaluations=None, realizations=None,
+                                       functions=types.SimpleNamespace(weighted_objective=T.real("incumbent_user_objective", ())))
+        else:
+            inc_user = inc_opt
+        first = {"results": (inc_user,)}
+        if case["flip"]:
+            first["transformed_results"] = (inc_opt,)
+        trk.handle_event(Event(event_type=EventType.FINISHED_EVALUATION, config=None, source=src, data=first))
+        T.prove("C12.history.a_first_feasible_function_result_is_tracked", trk["results"] is inc_user)
+        if trk["results"] is not inc_user:
+            return
     user, opt, objs, viols = _results(T, "new", case["kinds"], case["flip"])
     data = {"results": user}
     if case["flip"]:
@@ -298,7 +310,9 @@ def scn_delivery(T, case):
         seen.extend(event.data["results"])
         raise OptimizationAborted(exit_code=OptimizerExitCode.USER_ABORT)
 
-    octx = ctx_cls(evaluator=None, plugin_manager=types.SimpleNamespace())
+    from contracts import stepflow
+
+    octx = ctx_cls(evaluator=None, plugin_manager=stepflow.PlanPlugins())
     octx.add_observer(EventType.FINISHED_EVALUATION, observer)
     plans, parent = [], None
     for d in range(case["depth"]):
@@ -306,7 +320,7 @@ def scn_delivery(T, case):
         plans.append(parent)
     src = uuid.uuid4()
     trk = cls(plans[case["where"]], what=case["what"], constraint_tolerance=None, sources={src})
-    plans[case["where"]]._handlers = {trk.id: trk}
+    stepflow.add_handler(plans[case["where"]], trk)
     obj = T.real("objective", ())
     res = FunctionResults(batch_id=None, metadata={}, evaluations=None, realizations=None, functions=types.SimpleNamespace(weighted_objective=obj))
     ev = Event(event_type=EventType.FINISHED_EVALUATION, config=None, source=src, data={"results": (res,)})
